@@ -19,7 +19,14 @@ THRIFT_RT = ["common", "protos", "ref_thrift", "l0", "insts_l0", "l1", "insts_l1
 
 PB_RT = ["common", "ref_thrift", "ref_pb", "pb", "insts_pb"]
 
+GEN_THRIFT = [("t_basic", "t_basic.thrift", "plain")]
+
 PROPS = {
+    "C02": dict(
+        modules=["common", "protos", "ref_thrift", "gen_thrift", "c02", "insts_c02"],
+        gen=GEN_THRIFT,
+        outside="IDL documents other than corpus/t_basic.thrift; containers with more than 2 elements, strings longer than 2 bytes, recursion deeper than 2; hash containers (ahash RandomState needs getrandom, an unsupported foreign call) - btree containers are used; decode_async (see C12); split / keep_unknown_fields builder options (C13)",
+    ),
     "PROBE": dict(modules=["common","protos","ref_thrift","l0","l1","probe"]),
     "C09": dict(
         modules=["common", "protos", "ref_thrift", "l0", "l1", "total", "insts_c09"],
@@ -46,7 +53,8 @@ PROPS = {
         outside="value trees beyond the L0/L1/L2 shapes; message names longer than 2 bytes",
     ),
     "C04": dict(
-        modules=THRIFT_RT,
+        modules=THRIFT_RT + ["gen_thrift", "c02", "insts_c02"],
+        gen=GEN_THRIFT,
         outside="as C01; generated types beyond the corpus",
     ),
 }
